@@ -7,6 +7,7 @@ mod budget;
 mod cdiff;
 mod cdiff_env;
 mod codec;
+mod codec_wit;
 mod conc;
 mod core;
 mod dag;
